@@ -2005,11 +2005,7 @@ struct ArgsT;
 struct Registry final {
 	FFSM2_CONSTEXPR(11)	bool isActive				()						  const noexcept	{ return active != INVALID_SHORT;								}
 
-	FFSM2_CONSTEXPR(14)	bool isActive				(const StateID stateId)	  const noexcept	{
-		return stateId == 0 ?
-			active != INVALID_SHORT :
-			active == stateId;
-	}
+	FFSM2_CONSTEXPR(11)	bool isActive				(const StateID stateId)	  const noexcept	{ return active == stateId;										}
 
 	FFSM2_CONSTEXPR(14)	void clearRequests			()								noexcept	{		 requested  = INVALID_SHORT;							}
 	FFSM2_CONSTEXPR(14)	void clear					()								noexcept	{		 requested  = INVALID_SHORT;   active  = INVALID_SHORT;	}
